@@ -98,10 +98,23 @@ package updates
 //@ pred RefsFreshWF(refs database.References) := (forall s: database.ReferenceSpec :: (s in refs) ==> (refs[s] != nil && allocated(refs[s]))) && (forall s1: database.ReferenceSpec, s2: database.ReferenceSpec :: s1 != s2 && (s1 in refs) && (s2 in refs) ==> refs[s1] != refs[s2]) && (forall s: database.ReferenceSpec, t: string :: (s in refs) && (t in refs[s]) ==> allocated(refs[s][t]))
 //@ func getReferenceModificationsFromMap
 //@ modifies nothing
+// rows produced by the mapper hold atoms in map positions
+//@ requires forall k: interface{} :: (k in modify.GoMap) ==> hashable(modify.GoMap[k])
+//@ requires forall k: interface{} :: (k in old.GoMap) ==> hashable(old.GoMap[k])
 //@ ensures result != nil ==> OnceFrom(result, uuid)
-//@ loop 1 invariant refs != nil && fresh(refs) && RefsFreshWF(refs) && OnceFrom(refs, uuid)
-//@ loop 1 invariant forall s: database.ReferenceSpec :: (s in refs) ==> (fresh(refs[s]) && (s == keySpec || s == valueSpec))
-//@ loop 1 invariant forall s: database.ReferenceSpec, t: string :: (s in refs) && (t in refs[s]) ==> fresh(refs[s][t])
+//@ loop 1 invariant after != nil && fresh(after)
+//@ loop 1 invariant forall k: interface{} :: (k in after) ==> hashable(after[k])
+//@ loop 1 invariant forall k: interface{} :: (k in old.GoMap) ==> hashable(old.GoMap[k])
+//@ loop 1 invariant forall k: interface{} :: (k in modify.GoMap) ==> hashable(modify.GoMap[k])
+//@ loop 2 invariant after != nil && fresh(after)
+//@ loop 2 invariant forall k: interface{} :: (k in after) ==> hashable(after[k])
+//@ loop 2 invariant forall k: interface{} :: (k in old.GoMap) ==> hashable(old.GoMap[k])
+//@ loop 2 invariant forall k: interface{} :: (k in modify.GoMap) ==> hashable(modify.GoMap[k])
+//@ loop 3 invariant RefsBuilt(refs, uuid, keySpec, valueSpec)
+//@ loop 4 invariant RefsBuilt(refs, uuid, keySpec, valueSpec)
+//@ loop 5 invariant RefsBuilt(refs, uuid, keySpec, valueSpec)
+//@ loop 6 invariant RefsBuilt(refs, uuid, keySpec, valueSpec)
+//@ pred RefsBuilt(refs database.References, uuid string, keySpec database.ReferenceSpec, valueSpec database.ReferenceSpec) := refs != nil && fresh(refs) && RefsFreshWF(refs) && OnceFrom(refs, uuid) && (forall s: database.ReferenceSpec :: (s in refs) ==> (fresh(refs[s]) && (s == keySpec || s == valueSpec))) && (forall s: database.ReferenceSpec, t: string :: (s in refs) && (t in refs[s]) ==> fresh(refs[s][t]))
 
 // ---- mutate.go (C19/C03): arithmetic mutators never divide by zero -----------------
 // The divisor of an integer division or modulo is non-zero: required of the
